@@ -1,2 +1,235 @@
-(* C15 — placeholder while the proofs are being developed *)
-From Verif Require Import Base.Prelude Chain.Model.
+(* C15 — discovery-chain compilation is closed, terminating and deterministic.
+   Theorems only; each closed by an application of a lemma of coq/Chain/*.v.
+
+   The model (coq/Chain/Model.v) follows agent/consul/discoverychain/compile.go function by
+   function; [compile es cx svc ords] is compiler.compile for the entry list [es] (read only as a
+   map keyed by kind and name), the request [cx] (datacenter, OverrideProtocol) and chain [svc];
+   [ords] is the order in which flattenAdjacentSplitterNodes meets the nodes of the Go map
+   c.nodes in each of its passes (Go leaves it unspecified). *)
+From Verif Require Import Base.Prelude.
+From Verif Require Import Chain.Model.
+From Verif Require Import Chain.Lemmas.
+From Verif Require Import Chain.Passes.
+From Verif Require Import Chain.Resolve.
+From Verif Require Import Chain.Assemble.
+From Verif Require Import Chain.Proofs.
+From Verif Require Import Chain.Det.
+From Verif Require Import Chain.Store.
+From Verif Require Import Chain.Complete.
+From Verif Require Import Chain.Cycles.
+From Verif Require Import Chain.Order.
+From Verif Require Import Chain.Examples.
+From Coq Require Import Permutation.
+Local Open Scope string_scope.
+Local Open Scope list_scope.
+
+(* ---------------------------------------------------------------- termination *)
+
+(* Every loop of the compiler is run by the model on a bound; the bound is never exhausted and no
+   "impossible" lookup (a Go nil dereference, "compilation references non-retained node") ever
+   fails: on EVERY input the result is a graph or one of the errors a user can cause.
+   Measures: RESOLVE_AGAIN — the redirectHistory has no repetition and stays inside
+   {start service, redirect services} x {"", start subset, default subsets, redirect subsets} x
+   {start dc, request dc, redirect dcs}; getSplitterNode — the number of service-splitter names not
+   yet in splitterNodes; detectCircularReferences — the current path has no repetition and lies in
+   c.nodes; flattenAdjacentSplitterNodes — the largest rank (longest walk below) of a splitter that
+   is a leg of a splitter drops with every pass (every node is reachable from the start node, so
+   the rank computed by the cycle check covers all of c.nodes); removeUnusedNodes — the size of the
+   work list plus 1 + out-degree of every node not yet visited. *)
+Theorem C15_terminates : forall es cx svc ords,
+  (exists g, compile es cx svc ords = Ok g) \/
+  (exists e, compile es cx svc ords = Err e /\ e <> EOutOfFuel /\ e <> EInternal).
+Proof. exact compile_total. Qed.
+
+(* ---------------------------------------------------------------- closure *)
+
+(* In a compiled chain the start node exists, every NextNode of a route or split exists, node kinds
+   match their keys, every resolver node's target and failover targets are in the target map, and
+   a rank decreases along every edge (no cycle, no infinite walk). *)
+Theorem C15_closed : forall es cx svc ords g,
+  compile es cx svc ords = Ok g ->
+  lookup (g_start g) (g_nodes g) <> None /\
+  (forall a nd b, lookup a (g_nodes g) = Some nd -> In b (children nd) -> lookup b (g_nodes g) <> None) /\
+  (forall k nd, lookup k (g_nodes g) = Some nd ->
+     match k, nd with
+     | NRouter _, RouterN _ | NSplitter _, SplitterN _ | NResolver _, ResolverN _ _ => True
+     | _, _ => False
+     end) /\
+  (forall t d fo, lookup (NResolver t) (g_nodes g) = Some (ResolverN d fo) ->
+     In t (g_targets g) /\ incl fo (g_targets g)) /\
+  (exists r : nid -> nat,
+     forall a nd b, lookup a (g_nodes g) = Some nd -> In b (children nd) -> r b < r a).
+Proof. exact compile_closed_unfolded. Qed.
+
+(* Every path from the start node ends at a resolver with a target: every node reached from the
+   start can be continued to a resolver node whose target is in the target map, and a node without
+   outgoing edge IS such a resolver (service-splitter entries have at least one split: Validate). *)
+Theorem C15_paths_end_at_resolvers : forall es cx svc ords g,
+  (forall s l, get_splitter es s = Some l -> l <> []) ->
+  compile es cx svc ords = Ok g ->
+  forall a, reachN (g_nodes g) (g_start g) a ->
+    (exists t, reachN (g_nodes g) a (NResolver t) /\ In t (g_targets g)) /\
+    ((forall b, ~ edge (g_nodes g) a b) -> exists t, a = NResolver t /\ In t (g_targets g)).
+Proof. exact compile_paths. Qed.
+
+(* ---------------------------------------------------------------- cycles are reported *)
+
+(* [Req es cx svc q]: the entries make the compiler issue request q while compiling chain svc —
+   a splitter node (QSplit), a target handed to getResolverNode by a route, a split or the chain
+   itself (QTarget), or a failover target of a resolved target (QFail); see Chain/Cycles.v.
+   When assembleChain succeeds every such request was served (requests_served); therefore: *)
+
+(* a redirect cycle under ANY target reachable from the service through routes, splits and
+   failover makes compile fail (it cannot be followed, and it cannot be skipped) *)
+Theorem C15_cycles_reported : forall es cx svc ords t,
+  Req es cx svc (QTarget t) \/ Req es cx svc (QFail t) ->
+  cyclic es cx t ->
+  exists e, compile es cx svc ords = Err e.
+Proof. exact redirect_cycle_reported. Qed.
+
+(* a splitter reachable from the service that splits, through any number of splitters, back to
+   itself makes compile return the circular-reference error (or the error that already stopped
+   assembleChain elsewhere in the chain) *)
+Theorem C15_cycles_reported_splitters : forall es cx svc ords a,
+  Req es cx svc (QSplit a) -> SplitPath es cx a a ->
+  (exists e, assemble es cx svc = Err e /\ compile es cx svc ords = Err e) \/
+  compile es cx svc ords = Err ECircularReference.
+Proof. exact reference_cycle_reported. Qed.
+
+(* Redirects: wherever getResolverNode starts its RESOLVE_AGAIN loop (routes, splits, failover
+   targets) on a target whose redirect / default-subset walk never ends, the loop returns the
+   circular-redirect error (a protocol mismatch met earlier on the walk is reported first);
+   memoised resolver nodes are final targets, so the memo cannot hide a cycle. *)
+Theorem C15_cycles_reported_redirect_loop : forall es cx st t,
+  Final_memo es cx st -> cyclic es cx t ->
+  resolve_loop es cx (redirect_fuel es) st [] t = Err ECircularRedirect \/
+  resolve_loop es cx (redirect_fuel es) st [] t = Err EProtocolMismatch.
+Proof. exact resolve_loop_cycle. Qed.
+
+(* ... in particular for the chain's own resolver when no router / splitter sits in front of it *)
+Theorem C15_cycles_reported_redirect : forall es cx svc ords,
+  (disable_adv cx = true \/ (get_router es svc = None /\ get_splitter es svc = None)) ->
+  cyclic es cx (new_target cx svc "") ->
+  compile es cx svc ords = Err ECircularRedirect \/ compile es cx svc ords = Err EProtocolMismatch.
+Proof. exact compile_redirect_cycle. Qed.
+
+(* A successful resolution is the END of the walk (so a reachable cycle can never be "followed"):
+   the target a resolver call returns is the final target of the walk from the requested one. *)
+Theorem C15_resolution_follows_walk : forall es cx svc ip R st t st' t',
+  AInv es cx svc ip R st -> get_resolver_node es cx st t = Ok (st', t') -> Orbit es cx t t'.
+Proof. exact resolution_follows_walk. Qed.
+
+(* References among router / splitter nodes: a cycle reachable from the start node of the
+   assembled table makes compile return the circular-reference error. *)
+Theorem C15_cycles_reported_reference : forall es cx svc ords st start router a b,
+  assemble es cx svc = Ok (st, start, router) ->
+  reachN (to_nodes svc st router) start a -> edge (to_nodes svc st router) a b ->
+  reachN (to_nodes svc st router) b a ->
+  compile es cx svc ords = Err ECircularReference.
+Proof. exact compile_reference_cycle. Qed.
+
+(* ---------------------------------------------------------------- determinism *)
+
+(* The result depends on the entry MAP only: listing the entries in another order changes nothing. *)
+Theorem C15_deterministic : forall es es' cx svc ords,
+  NoDup (map ekey es) -> Permutation es es' ->
+  compile es cx svc ords = compile es' cx svc ords.
+Proof. exact compile_permutation. Qed.
+
+(* Full statement — the result does not depend on the map iteration order inside
+   flattenAdjacentSplitterNodes either — is FALSE of the faithful model (finding
+   C15-flatten-order: three chained splitters, weights rounded after every inlining step). *)
+Theorem C15_deterministic_order_refuted :
+  exists es cx svc o1 o2, compile es cx svc o1 <> compile es cx svc o2.
+Proof. exact order_refuted. Qed.
+
+(* ... and holds exactly outside that class: when splitters are chained at most two deep
+   ([splits_to a b]: splitter a has a split that resolves to splitter b) the compiled chain is the
+   same for every iteration order. *)
+Theorem C15_deterministic_order_partial : forall es cx svc o1 o2,
+  (forall a b c, splits_to es cx a b -> splits_to es cx b c -> False) ->
+  compile es cx svc o1 = compile es cx svc o2.
+Proof. exact compile_order_shallow. Qed.
+
+(* Whether compile fails, and with which error, never depends on the iteration order (so the
+   write guard below is unaffected by the finding). *)
+Theorem C15_error_order_independent : forall es cx svc o1 o2 e,
+  compile es cx svc o1 = Err e -> compile es cx svc o2 = Err e.
+Proof. exact compile_error_order. Qed.
+
+(* ---------------------------------------------------------------- write guard *)
+
+(* EnsureConfigEntry / DeleteConfigEntry accept a write iff every chain the code re-validates —
+   the written name and the chains owning a router/splitter/resolver that names it; every chain with
+   such an entry for proxy-defaults — compiles with the write applied (deleting an absent entry
+   validates nothing); a rejected write leaves the stored entries unchanged. *)
+Theorem C15_write_guard : forall store op store' acc,
+  write store op = (store', acc) ->
+  (acc = true <-> no_validation store op \/
+                  forall s, In s (affected store (op_key op)) ->
+                            exists g, compile (proposed store op) test_ctx s [] = Ok g) /\
+  (acc = false -> store' = store) /\
+  (acc = true -> store' = proposed store op \/ (no_validation store op /\ store' = store)).
+Proof. exact write_guard. Qed.
+
+(* "A write that would make ANY chain uncompilable is rejected" is FALSE of the faithful model
+   (finding C15-guard-one-hop): every chain compiles, the write is accepted, chain "a" is broken. *)
+Theorem C15_store_validity_refuted :
+  exists store op,
+    forallb (compiles store) ["a"; "b"; "c"] = true /\
+    write store op = (proposed store op, true) /\
+    compile (proposed store op) test_ctx "a" [] = Err EProtocolMismatch.
+Proof. exact store_validity_refuted. Qed.
+
+(* ---------------------------------------------------------------- non-vacuity *)
+
+(* the hypotheses of the theorems above are met by non-trivial inputs (coq/Chain/Examples.v):
+   a chain that compiles to a router, a splitter and three resolvers; a redirect cycle a -> b -> a;
+   splitters chained two deep; a redirect cycle behind a failover target; a splitter cycle *)
+Example C15_example_compiles :
+  NoDup (map ekey ex_entries) /\
+  (forall s l, get_splitter ex_entries s = Some l -> l <> []) /\
+  exists g, compile ex_entries test_ctx "a" [] = Ok g /\ List.length (g_nodes g) = 5.
+Proof. exact example_compiles. Qed.
+
+Example C15_example_cycle :
+  cyclic cyc_entries test_ctx (new_target test_ctx "a" "") /\
+  compile cyc_entries test_ctx "a" [] = Err ECircularRedirect.
+Proof. exact example_cycle. Qed.
+
+Example C15_example_two_deep :
+  (forall a b c, splits_to two_deep test_ctx a b -> splits_to two_deep test_ctx b c -> False) /\
+  exists g, compile two_deep test_ctx "a" [] = Ok g /\ List.length (g_nodes g) = 4.
+Proof. exact example_two_deep. Qed.
+
+Example C15_example_failover_cycle :
+  Req fail_cycle test_ctx "a" (QFail (Tgt "b" "" "dc1")) /\
+  cyclic fail_cycle test_ctx (Tgt "b" "" "dc1") /\
+  compile fail_cycle test_ctx "a" [] = Err ECircularRedirect.
+Proof. exact example_failover_cycle. Qed.
+
+Example C15_example_splitter_cycle :
+  Req split_cycle test_ctx "a" (QSplit "a") /\ SplitPath split_cycle test_ctx "a" "a" /\
+  compile split_cycle test_ctx "a" [] = Err ECircularReference.
+Proof. exact example_splitter_cycle. Qed.
+
+Print Assumptions C15_terminates.
+Print Assumptions C15_closed.
+Print Assumptions C15_paths_end_at_resolvers.
+Print Assumptions C15_cycles_reported.
+Print Assumptions C15_cycles_reported_splitters.
+Print Assumptions C15_cycles_reported_redirect_loop.
+Print Assumptions C15_cycles_reported_redirect.
+Print Assumptions C15_resolution_follows_walk.
+Print Assumptions C15_cycles_reported_reference.
+Print Assumptions C15_deterministic.
+Print Assumptions C15_deterministic_order_refuted.
+Print Assumptions C15_deterministic_order_partial.
+Print Assumptions C15_error_order_independent.
+Print Assumptions C15_write_guard.
+Print Assumptions C15_store_validity_refuted.
+Print Assumptions C15_example_compiles.
+Print Assumptions C15_example_cycle.
+Print Assumptions C15_example_two_deep.
+Print Assumptions C15_example_failover_cycle.
+Print Assumptions C15_example_splitter_cycle.
